@@ -119,7 +119,11 @@ class Buffer:
                 #         that all buffers have capacity below a particular threshold
 
                 if not self.check_buffer_over_data_threshold(b):
-                    if self.cold[b].observations['stored']:
+                    # One return at a time: the projection below does not
+                    # see data that is still on its way back to the hot
+                    # buffer.
+                    if (self.cold[b].observations['stored']
+                            and self.cold[b].observations['transfer'] is None):
                         if self.project_buffer_capacity(self.cold[b].observations['stored'][-1], b):
                             self.env.process(self.move_cold_to_hot(b))
                     else:
